@@ -19,7 +19,7 @@ EXTENDS Integers, Sequences, FiniteSets
 
 \* ---- tokens ---------------------------------------------------------------
 \* t : token kind; s : identifier name / string flavour ("s" plain, "ms" ''' ''', "fs" f'', "mfs" f''' ''')
-\* n : numeric value; cs : raw characters of a string literal (code points)
+\* n : numeric value; cs : raw characters of a string literal, or the name of an identifier (code points)
 Token(t, s, n, cs) == [t |-> t, s |-> s, n |-> n, cs |-> cs]
 Sym(t) == Token(t, "", 0, <<>>)
 
@@ -73,7 +73,7 @@ E10(ts, p) ==
     LET t == Tk(ts, p) IN
     CASE t = "true" -> Ok(Leaf("bool", "", 1, <<>>, p), p + 1)
       [] t = "false" -> Ok(Leaf("bool", "", 0, <<>>, p), p + 1)
-      [] t = "id" -> Ok(Leaf("id", ts[p].s, 0, <<>>, p), p + 1)
+      [] t = "id" -> Ok(Leaf("id", ts[p].s, 0, ts[p].cs, p), p + 1)
       [] t = "number" -> Ok(Leaf("num", "", ts[p].n, <<>>, p), p + 1)
       [] t = "string" -> Ok(Leaf("str", ts[p].s, 0, ts[p].cs, p), p + 1)
       [] OTHER -> Ok(Empty(p), p)
@@ -86,7 +86,7 @@ E1(ts, p, tern) ==
                 LET r == E1(ts, l.p + 1, tern) IN
                 IF ~r.ok THEN r
                 ELSE IF l.node.k # "id" THEN Fail(p)
-                ELSE Ok(Node(IF t = "assign" THEN "assign" ELSE "plusassign", l.node.v, l.p, <<>>, <<r.node>>, <<>>,
+                ELSE Ok(Node(IF t = "assign" THEN "assign" ELSE "plusassign", l.node.v, l.p, l.node.cs, <<r.node>>, <<>>,
                              p, EndOf(l.node, r.node, l.p)), r.p)
            [] t = "questionmark" ->
                 IF tern THEN Fail(p)
@@ -298,8 +298,8 @@ ForeachP(ts, p) ==
     IF Tk(ts, p + 1) # "id" THEN Fail(p + 1)
     ELSE LET two == Tk(ts, p + 2) = "comma"
              q == IF two THEN p + 4 ELSE p + 2
-             vars == IF two THEN <<Leaf("id", ts[p + 1].s, 0, <<>>, p + 1), Leaf("id", ts[p + 3].s, 0, <<>>, p + 3)>>
-                     ELSE <<Leaf("id", ts[p + 1].s, 0, <<>>, p + 1)>>
+             vars == IF two THEN <<Leaf("id", ts[p + 1].s, 0, ts[p + 1].cs, p + 1), Leaf("id", ts[p + 3].s, 0, ts[p + 3].cs, p + 3)>>
+                     ELSE <<Leaf("id", ts[p + 1].s, 0, ts[p + 1].cs, p + 1)>>
          IN IF two /\ Tk(ts, p + 3) # "id" THEN Fail(p + 3)
             ELSE IF Tk(ts, q) # "colon" THEN Fail(q)
             ELSE LET items == E1(ts, q + 1, FALSE) IN
